@@ -17,11 +17,11 @@ def run(tier: str, seed: int):
         rule = 'n<=4 shapes x requested x pre-cached; n<=3 x all label permutations x fault sets <=2; n=4 single faults; every completion order (batch<=2); real SerialRunner results_map via spy'
         e3c = list(F.fam_e3(list(F.fam_faults(1, 3, cofs=(True,))) + list(F.fam_shapes(1, 3)) + list(F.fam_variants(2)), workers=(2,), liveness=False)) + list(F.fam_e3([c for c in F.fam_shapes(2, 2, pre=False) if len(c.requested) == c.spec.n], workers=(1, 2), liveness=False, prelude=True))
     else:
-        cfgs = (list(F.fam_shapes(1, 5, batch=2)) + list(F.fam_faults(1, 3, max_faults=2, perms=True, cofs=(True,), reqs='sinks'))
+        cfgs = (list(F.fam_shapes(1, 4, batch=2)) + list(F.fam_shapes(5, 5, batch=2, pre=False)) + list(F.fam_faults(1, 3, max_faults=2, perms=True, cofs=(True,), reqs='sinks'))
                 + list(F.fam_faults(4, 4, max_faults=1, perms=True, cofs=(True,), reqs='sinks')) + list(F.fam_faults(4, 4, max_faults=2, cofs=(True,), reqs='sinks'))
                 + list(F.fam_faults(5, 5, max_faults=1, reqs='sinks', cofs=(True,))) + list(F.fam_variants(3, batch=3)))
         serial = list(F.fam_shapes(1, 4, batch=1)) + list(F.fam_faults(1, 3, max_faults=2, kinds=('raise',), perms=True, cofs=(True,), reqs='sinks')) + list(F.fam_faults(4, 4, max_faults=1, kinds=('raise',), perms=True, cofs=(True,), reqs='sinks')) + list(F.fam_variants(3))
-        rule = 'n<=5 shapes; n<=3 x label permutations x fault sets <=2; n=4 x label permutations x single faults and fault pairs without permutations; n=5 single faults'
+        rule = 'n<=4 shapes x pre-cached subsets, n=5 cold; n<=3 x label permutations x fault sets <=2; n=4 x label permutations x single faults and fault pairs without permutations; n=5 single faults'
         e3c = list(F.fam_e3(list(F.fam_faults(1, 3, max_faults=1, cofs=(True,), perms=True)) + list(F.fam_faults(2, 3, max_faults=2, cofs=(True,))) + list(F.fam_shapes(1, 3)), workers=(1, 2), liveness=False)) + list(F.fam_e3(F.fam_faults(4, 4, cofs=(True,), reqs='sinks'), workers=(2,), liveness=False))
     if tier != 'quick':
         x_cf, x_se, x_e3 = F.thorough_extras('C17')
